@@ -46,6 +46,8 @@ theorem copyItems_sep {h0 cp} (hcp : CpSep h0 cp) (items : Items) (h : Heap) (s 
     have g1 := hcp.good h k0 v
     unfold copyItems
     split
+    · exact ih h s (fun kv hkv => hsrc kv (List.mem_cons_of_mem _ hkv))
+    split
     · rename_i h1 e he; rw [he] at s1; exact ⟨s1, fun items' h2 => by simp at h2⟩
     · rename_i h1 v' he
       rw [he] at s1 g1
